@@ -128,6 +128,11 @@ pub enum Stop {
 /// greeting) or `None` when the peer only reacts. Returns when the client closes, or — with
 /// `switch_on_starttls` — right after a positive reply to `STARTTLS` has been written.
 pub fn serve_stream<S: Peer>(s: &mut S, script: &[Step], greet: bool, switch_on_starttls: bool, rec: &mut Record) -> Stop {
+    serve_stream_opt(s, script, greet, switch_on_starttls, false, rec)
+}
+
+/// as `serve_stream`; with `stall_at_end` the peer stays open and silent when the script runs out
+pub fn serve_stream_opt<S: Peer>(s: &mut S, script: &[Step], greet: bool, switch_on_starttls: bool, stall_at_end: bool, rec: &mut Record) -> Stop {
     let mut sending = true;
     let mut step = 0usize;
     let mut send_step = |s: &mut S, i: usize, rec: &mut Record, sending: &mut bool| {
@@ -136,7 +141,9 @@ pub fn serve_stream<S: Peer>(s: &mut S, script: &[Step], greet: bool, switch_on_
         }
         match script.get(i) {
             None => {
-                s.stop_sending();
+                if !stall_at_end {
+                    s.stop_sending();
+                }
                 *sending = false;
             }
             Some(st) => {
@@ -233,4 +240,44 @@ pub fn listen() -> Option<(TcpListener, u16)> {
     let l = TcpListener::bind("127.0.0.1:0").ok()?;
     let p = l.local_addr().ok()?.port();
     Some((l, p))
+}
+
+/// Serves one connection per script, each in its own thread, until `stop` is set and all
+/// handlers have finished. Connections beyond the scripts are accepted and closed at once.
+pub fn serve_many(
+    listener: TcpListener,
+    scripts: Vec<Vec<Step>>,
+    stall_at_end: bool,
+    stop: std::sync::Arc<std::sync::atomic::AtomicBool>,
+) -> Vec<Record> {
+    use std::sync::atomic::Ordering;
+    listener.set_nonblocking(true).ok();
+    let mut handles = Vec::new();
+    let mut k = 0usize;
+    loop {
+        match listener.accept() {
+            Ok((mut s, _)) => {
+                s.set_nonblocking(false).ok();
+                s.set_nodelay(true).ok();
+                s.set_read_timeout(Some(Duration::from_secs(20))).ok();
+                if let Some(script) = scripts.get(k).cloned() {
+                    handles.push(std::thread::spawn(move || {
+                        let mut rec = Record::default();
+                        serve_stream_opt(&mut s, &script, true, false, stall_at_end, &mut rec);
+                        rec
+                    }));
+                } else {
+                    drop(s);
+                }
+                k += 1;
+            }
+            Err(_) => {
+                if stop.load(Ordering::SeqCst) {
+                    break;
+                }
+                std::thread::sleep(Duration::from_millis(1));
+            }
+        }
+    }
+    handles.into_iter().map(|h| h.join().unwrap_or_default()).collect()
 }
